@@ -557,13 +557,13 @@ func convertStringToTv(schemaType *sdcpb.SchemaLeafType, v string, ts uint64) (*
 	case "leafref":
 		return convertStringToTv(schemaType.LeafrefTargetType, v, ts)
 	case "union":
-		for _, ut := range schemaType.GetUnionTypes() {
-			tv, err := convertStringToTv(ut, v, ts)
-			if err == nil {
-				return tv, nil
-			}
+		// the first member type the value fits, ranges and enum names included (2147483648 is no int32)
+		tv, err := ConvertUnion(v, schemaType.GetUnionTypes())
+		if err != nil {
+			return nil, fmt.Errorf("invalid value %s for union type: %v", v, schemaType)
 		}
-		return nil, fmt.Errorf("invalid value %s for union type: %v", v, schemaType)
+		tv.Timestamp = ts
+		return tv, nil
 	case "enumeration", "bits", "binary", "instance-identifier":
 		// TODO: get correct type, assuming string
 		return &sdcpb.TypedValue{
